@@ -128,7 +128,21 @@ func genC12(g *Gen, tier string, idx int) *wire.Scenario {
 		x.Entry = "reread"
 	}
 	var lines []string
-	switch g.N(10) {
+	sel := g.N(10)
+	if idx%10 == 3 {
+		sel = 100
+	}
+	switch sel {
+	case 100:
+		// length sweep: an unfinished construct (open quote, trailing backslash, half an escape) at every
+		// line length up to 72 -- a slice expression one past the end only panics when the backing array
+		// happens to be full, which depends on the allocator's size classes, that is on the length
+		for i := 0; i < g.Range(1, 2); i++ {
+			pre := Pick(g, []string{"set ", "set x \"", "set comment-begin \"", "set comment-begin '", "\"", "\"\\C-", "$if ", "$include ", "Control-", "\"a\": \"", "\"a\": '", "set isearch-terminators \"", "a: ", ""})
+			pad := strings.Repeat(Pick(g, []string{"a", "a", "é", " ", "\\\\"}), g.N(72))
+			suf := Pick(g, []string{"\\", "\"\\", "\\\"", "\"", "'", "\":", "\\C-", "\\M-", "\\x", "\\1", "\\e", "", " \\", "\\C-\\"})
+			lines = append(lines, pre+pad+suf)
+		}
 	case 0, 1:
 		// dictionary of directive fragments only
 		for i := 0; i < g.Range(1, 5); i++ {
